@@ -36,7 +36,9 @@ TogetherEqualsAlone == TupleClashes(tup) = {} => TogetherOK(tup, res)
 BlameIsRight == LET b == TogetherBad(tup, res, FALSE) IN
                 /\ (b = {}) = TogetherOK(tup, res)
                 /\ ("KeyClash" \in b) => \E i, j \in DOMAIN tup : tup[i].out = tup[j].out /\ tup[i].alone # tup[j].alone
-                /\ ("Permuted" \in b) => \E i, j \in DOMAIN tup : tup[i].kind # tup[j].kind
+                /\ ("Interleaved" \in b) => \E i, j \in DOMAIN tup : tup[i].kind # tup[j].kind
+\* the regrouping model goes wrong on clash-free tuples only when kinds are interleaved (checked with Impl = "grouped")
+GroupedWrongOnlyIfInterleaved == (TupleClashes(tup) = {} /\ ~TogetherOK(tup, res)) => Interleaved(tup)
 
 -----------------------------------------------------------------------------
 Families == { [fam |-> "nd-layout",   progs |-> { "array", "array+1", "array.sum", "delayed.pure", "delayed.value" }],
